@@ -111,6 +111,14 @@ def run(chk):
         progs.append(("static class Dice { public static int n = 2; public static function roll() -> int { qubit q; h(q); bit b = measure q; echo(\"rolled\"); n = n + 1; if (b == 1b) { return 2; } return 1; } }\n"
                       "class Buffer { public int[%s] cells; public int k = 0; public constructor() -> Buffer { } }\n"
                       "function main() -> void { Buffer b = new Buffer(); echo(b.cells); echo(Dice.n); Buffer c = new Buffer(); echo(c.cells); }" % size, "field-size-expr"))
+    # deterministic programs whose output goes through every formatter: whole and fractional floats, longs, negative numbers, bits,
+    # strings, arrays — in an order that would expose a formatter that remembers what it printed last
+    FMT = ["echo(1.0f / 4.0f);", "echo(2.0f * 2.0f);", "echo(0.125f);", "echo(100.0f);", "echo(-0.5f);", "echo(3);", "echo(-7L * 1000000000L);",
+           "echo(1b);", "echo(\"s\" + 1.5f);", "echo(\"t\" + 2.0f);", "float[] fa = {0.25f, 4.0f, 0.3f}; echo(fa);", "echo((float) 7);", "echo(1.0f / 3.0f);",
+           "echo(true);", "echo('c');", "int[] ia = {1, -2}; echo(ia);"]
+    for _ in range(60 if chk.thorough else 10):
+        body = [rng.choice(FMT) for _k in range(rng.randrange(2, 7))]
+        progs.append(("function main() -> void { { %s } }" % " } { ".join(body), "formatters"))
     for _fn, o in load_corpus("C18"):
         progs.append((o["source"], "corpus"))
     lines = []
@@ -129,6 +137,14 @@ def run(chk):
         kinds[kind] = kinds.get(kind, 0) + 1
         chk.count((src, ln.split()[2]) if " echo=" in a and "echo= " not in a.split("##")[0][:400] else None)
         if a.startswith("same "):
+            # shots that consumed no randomness (no measurement, no reset) are runs of one deterministic program: they must agree with
+            # each other to the letter — state that leaks through something both the shared and the fresh pipeline use
+            # (a process-wide formatter, a cache) shows here and nowhere else
+            shots_ = a[len("same "):].partition(" ## ")[0].split(" || ")
+            if bad is None and len(shots_) > 1 and all(" outcomes= " in x for x in shots_):
+                k = next((i for i, x in enumerate(shots_) if x != shots_[0]), None)
+                if k is not None:
+                    bad = (src, kind, ln, k, shots_[k][:300], shots_[0][:300], "deterministic program, shot %d differs from shot 1" % (k + 1))
             continue
         if a.startswith(("err Semantic", "err Parse", "err Lexical")):
             rejected[kind] = rejected.get(kind, 0) + 1
@@ -141,6 +157,24 @@ def run(chk):
             sh, fr = shared.split(" || "), fresh.split(" || ")
             k = next((i for i, (x, y) in enumerate(zip(sh, fr)) if x.replace("DIFFERENT ", "") != y), 0)
             bad = (src, kind, ln, k, sh[k][:300] if k < len(sh) else "", fr[k][:300] if k < len(fr) else "", a[:80])
+    # the formatter programs are deterministic and class-free: every shot must print what the reference evaluator (Lean) prints, whatever
+    # ran before in the same process — earlier shots, earlier programs
+    fprogs = [(src, []) for src, kind in progs if kind == "formatters"]
+    if fprogs:
+        _lf, _if, fmodel, _incf = evallib.run_programs(fprogs)
+        import re as _re
+        _echo = lambda t: (_re.search(r" echo=(\S*)", t) or [None, None])[1]
+        want = {src: _echo(m) for (src, _d), m in zip(fprogs, fmodel) if m.startswith("ok ")}
+        for (src, kind), ln, a in zip(progs2, lines, impl):
+            if kind != "formatters" or src not in want or bad is not None or ln.split()[2] != "1":
+                continue
+            body = a[len("same "):] if a.startswith("same ") else a
+            shots_ = body.partition(" ## ")[0].split(" || ")
+            for k, x in enumerate(shots_):
+                got = _echo(x)
+                if got != want[src]:
+                    bad = (src, kind, ln, k, "echo=%s" % got, "echo=%s (reference evaluator)" % want[src], "formatting depends on what ran before")
+                    break
     chk.extra["input_distribution"] = kinds
     chk.extra["rejected_by_front_end"] = rejected
     chk.extra["harness_incident"] = str(incident)[:600] if incident else ""
